@@ -242,8 +242,16 @@ pub fn impl_(ctx: &Context, input: &DeriveInput) -> TokenStream {
                 quote! { self.#item }
             });
             quote! {
-                let __flatty_offset = 0;
-                #body
+                {
+                    let __flatty_offset = 0;
+                    // Hand out exactly the bytes the view made by `ptr_from_bytes` covers.
+                    let __flatty_len = ::flatty::utils::floor_mul(
+                        __flatty_bytes.len(),
+                        <#self_ident<#self_args> as ::flatty::traits::FlatBase>::ALIGN,
+                    );
+                    let __flatty_bytes = __flatty_bytes.get_unchecked_mut(..__flatty_len);
+                    #body
+                }
             }
         }
         Data::Enum(data) => {
